@@ -1,0 +1,36 @@
+//go:build verif
+
+// Contracts for the deductive verification in /verif (comment-only; compiled code is unaffected).
+package standard
+
+// C07 (act only after the permission check), C20 (no panic): wallet lock/unlock.
+
+//@ func (*Service).fetchWallet
+//@ requires s != nil
+//@ ensures [found] result1 == core.ResultSucceeded ==> result0 != nil
+//@ ensures [none] result1 != core.ResultSucceeded ==> result0 == nil
+
+//@ func (*Service).checkAccess
+//@ requires s != nil
+//@ modifies checkedset, deniedset
+//@ ensures [ok] result == core.ResultSucceeded ==> credentials != nil && (credentials.Client + "|" + accountName + "|" + action) in checkedset
+
+//@ func (*Service).preCheck
+//@ requires s != nil
+//@ modifies checkedset, deniedset
+//@ ensures [ok] result1 == core.ResultSucceeded ==> result0 != nil && credentials != nil && wkey(credentials.Client, nameOf(result0), action) in checkedset
+//@ ensures [none] result1 != core.ResultSucceeded ==> result0 == nil
+
+//@ func (*Service).Lock
+//@ requires s != nil
+//@ requires [unlocked] !prelocked && (forall k [48]byte :: !held[k])
+//@ modifies checkedset, deniedset, tokroot, db, held, prelocked
+//@ ensures [released] !prelocked && (forall k [48]byte :: !held[k])
+//@ ensures [nocred] credentials == nil ==> result0 == core.ResultFailed
+
+//@ func (*Service).Unlock
+//@ requires s != nil
+//@ requires [unlocked] !prelocked && (forall k [48]byte :: !held[k])
+//@ modifies checkedset, deniedset, tokroot, db, held, prelocked
+//@ ensures [released] !prelocked && (forall k [48]byte :: !held[k])
+//@ ensures [nocred] credentials == nil ==> result0 == core.ResultFailed
